@@ -19,6 +19,7 @@ import (
 	"github.com/gr33nbl00d/caddy-revocation-validator/config"
 	repoocsp "github.com/gr33nbl00d/caddy-revocation-validator/ocsp"
 
+	"verif/harness/lab/der"
 	"verif/harness/lab/l2"
 	"verif/harness/lab/origin"
 	"verif/harness/lab/pki"
@@ -185,7 +186,7 @@ func fmtReads(rs []read) string {
 
 func main() {
 	run := report.New("C14", "exploration")
-	run.Rule("scenarios (real time, small durations): S1 identity (two issuers, equal subject+serial; certificates with keyIdentifier / issuer+serial / long / no authorityKeyIdentifier), S2 default lifetime with read periods above and below the lifetime and a good->revoked flip, S2d an expired entry with the responder unavailable under aia_strict is not served, S3 nextUpdate past / near (requested lifespan read from the cache table), S4 zero duration => hits == calls, S5 failed queries (down, garbage, unauthenticated) are not cached, S6 two checker instances with different durations, S7 seeded provision/cleanup life cycles of 1 h-cache instances, after every step a fresh zero-duration instance must contact the responder for every certificate cached so far; oracle one-sided: a verdict served without a responder hit at an age above lifetime+margin, or for another issuer's certificate, is a violation; non-trivial = the scenario observed at least one read served from cache (or, for S4/S5, responder hits on every call); distinct = scenario instance")
+	run.Rule("scenarios (real time, small durations): S1 identity (two issuers, equal subject+serial; certificates with keyIdentifier / issuer+serial / long / no authorityKeyIdentifier; issuers whose names are the same attributes in another order), S2 default lifetime with read periods above and below the lifetime and a good->revoked flip, S2d an expired entry with the responder unavailable under aia_strict is not served, S3 nextUpdate past / near (requested lifespan read from the cache table), S4 zero duration => hits == calls, S5 failed queries (down, garbage, unauthenticated) are not cached, S6 two checker instances with different durations, S7 seeded provision/cleanup life cycles of 1 h-cache instances, after every step a fresh zero-duration instance must contact the responder for every certificate cached so far; oracle one-sided: a verdict served without a responder hit at an age above lifetime+margin, or for another issuer's certificate, is a violation; non-trivial = the scenario observed at least one read served from cache (or, for S4/S5, responder hits on every call); distinct = scenario instance")
 	run.Assume("all stamps from one monotonic clock in the harness process; a lateness probe voids a scenario when 5 ms timers fire more than margin/4 late", "margin = max(1 s, 3 x lifetime)")
 	scratch, _ := report.Scratch("C14")
 	sut.QuietStderr(filepath.Join(scratch, "stderr.log"))
@@ -329,15 +330,33 @@ func main() {
 		wB := world.New("C14-B")
 		defer wB.Close()
 		e.install(wB, "/b", wB.Int)
+		// a second pair of issuers whose names consist of the same attributes in another order
+		cnO, oO, cO := "2.5.4.3", "2.5.4.10", "2.5.4.6"
+		wRA := world.NewNamed("C14-RA", nil, nil, der.Name([]der.ATV{{cO, der.TagPrintable, "DE"}}, []der.ATV{{oO, der.TagUTF8String, "Org"}}, []der.ATV{{cnO, der.TagUTF8String, "Issuing CA"}}))
+		wRB := world.NewNamed("C14-RB", nil, nil, der.Name([]der.ATV{{cnO, der.TagUTF8String, "Issuing CA"}}, []der.ATV{{oO, der.TagUTF8String, "Org"}}, []der.ATV{{cO, der.TagPrintable, "DE"}}))
+		defer wRA.Close()
+		defer wRB.Close()
+		e.install(wRA, "/ra", wRA.Int)
+		e.install(wRB, "/rb", wRB.Int)
 		for _, variant0 := range []string{"A-good.B-down.strict", "A-revoked.B-down.lenient", "A-good.B-revoked",
+			"A-good.B-down.strict/names=reordered", "A-good.B-revoked/names=reordered", "A-revoked.B-down.lenient/names=reordered",
 			"A-good.B-down.strict/aki=issuer-serial", "A-revoked.B-down.lenient/aki=issuer-serial", "A-good.B-revoked/aki=issuer-serial",
 			"A-good.B-revoked/aki=long", "A-good.B-revoked/aki=none"} {
 			// the certificates' authorityKeyIdentifier: keyIdentifier (default), issuer+serial only, long form, absent
 			variant, akiForm, _ := strings.Cut(variant0, "/aki=")
+			w, wB, pathA, pathB := w, wB, "/a", "/b"
+			if v2, _, ok := strings.Cut(variant, "/names=reordered"); ok {
+				variant, akiForm = v2, "names-reordered"
+				w, wB, pathA, pathB = wRA, wRB, "/ra", "/rb"
+			}
 			serial := pki.NextSerial()
+			pkiAKI := akiForm
+			if akiForm == "none" || akiForm == "names-reordered" {
+				pkiAKI = ""
+			}
 			subj := "same subject " + serial.String()
-			leafA := w.Int.Issue(pki.CertOpts{CN: subj, Serial: serial, OCSP: []string{w.OCSP.URL("/a")}, AKIForm: strings.TrimPrefix(akiForm, "none"), NoAKI: akiForm == "none"})
-			leafB := wB.Int.Issue(pki.CertOpts{CN: subj, Serial: serial, OCSP: []string{wB.OCSP.URL("/b")}, AKIForm: strings.TrimPrefix(akiForm, "none"), NoAKI: akiForm == "none"})
+			leafA := w.Int.Issue(pki.CertOpts{CN: subj, Serial: serial, OCSP: []string{w.OCSP.URL(pathA)}, AKIForm: pkiAKI, NoAKI: akiForm == "none"})
+			leafB := wB.Int.Issue(pki.CertOpts{CN: subj, Serial: serial, OCSP: []string{wB.OCSP.URL(pathB)}, AKIForm: pkiAKI, NoAKI: akiForm == "none"})
 			chainA := []*x509.Certificate{leafA.Cert, w.Int.Cert, w.Root.Cert}
 			chainB := []*x509.Certificate{leafB.Cert, wB.Int.Cert, wB.Root.Cert}
 			strict := newChecker(true, time.Hour)
@@ -345,8 +364,8 @@ func main() {
 			run.Eval(1)
 			switch variant {
 			case "A-good.B-down.strict":
-				e.set("/a", serial, world.OCSPStatus{Status: ocsp.Good}, "")
-				e.setOn(wB, "/b", serial, world.OCSPStatus{}, "down")
+				e.set(pathA, serial, world.OCSPStatus{Status: ocsp.Good}, "")
+				e.setOn(wB, pathB, serial, world.OCSPStatus{}, "down")
 				_, errA := strict.IsRevoked(chainA[0], [][]*x509.Certificate{chainA})
 				_, errB := strict.IsRevoked(chainB[0], [][]*x509.Certificate{chainB})
 				if errA != nil {
@@ -358,8 +377,8 @@ func main() {
 					continue
 				}
 			case "A-revoked.B-down.lenient":
-				e.set("/a", serial, world.OCSPStatus{Status: ocsp.Revoked}, "")
-				e.setOn(wB, "/b", serial, world.OCSPStatus{}, "down")
+				e.set(pathA, serial, world.OCSPStatus{Status: ocsp.Revoked}, "")
+				e.setOn(wB, pathB, serial, world.OCSPStatus{}, "down")
 				sA, _ := lenient.IsRevoked(chainA[0], [][]*x509.Certificate{chainA})
 				sB, errB := lenient.IsRevoked(chainB[0], [][]*x509.Certificate{chainB})
 				if sA == nil || !sA.Revoked {
@@ -371,8 +390,8 @@ func main() {
 					continue
 				}
 			case "A-good.B-revoked":
-				e.set("/a", serial, world.OCSPStatus{Status: ocsp.Good}, "")
-				e.setOn(wB, "/b", serial, world.OCSPStatus{Status: ocsp.Revoked}, "")
+				e.set(pathA, serial, world.OCSPStatus{Status: ocsp.Good}, "")
+				e.setOn(wB, pathB, serial, world.OCSPStatus{Status: ocsp.Revoked}, "")
 				_, _ = strict.IsRevoked(chainA[0], [][]*x509.Certificate{chainA})
 				sB, errB := strict.IsRevoked(chainB[0], [][]*x509.Certificate{chainB})
 				if errB != nil || sB == nil || !sB.Revoked {
